@@ -9,7 +9,9 @@
    and of StorageDB::store_block's height rule (db/storage_db.rs).
 
    MODELLED: all 7 input variants, all 5 output variants (with utxo id / tx pointer inlined),
-   policies, as carried by a Script transaction.  NOT modelled: block header, the other
+   policies, as carried by a Script transaction; the rule by which fuel_block_from_protobuf
+   recomputes the outbox message ids (per transaction, non-reverted only) that regenerate the
+   header.  NOT modelled: the header fields themselves (compared on the implementation), the other
    fields of the six transaction variants (script bytes, receipts root, witnesses, storage
    slots, upgrade purpose, mint/blob/upload bodies), receipts.
 
@@ -202,6 +204,52 @@ Fixpoint store_okb (cur : option N) (hs : list N) (obs : list (bool * option N))
   | _, _ => false
   end.
 
+(* ---- outbox message ids of a block (fuel_block_from_protobuf) ----
+   The header's generated fields (message_receipt_count, message_outbox_root, hence the
+   application hash and the block id) are not copied from the proto message: they are
+   regenerated from the message ids recomputed from the decoded receipts.  A receipt is
+   abstracted to what the rule looks at. *)
+Inductive rkind := RcReturn | RcRevert | RcPanic | RcMessageOut (id : N) | RcScriptResult.
+
+Definition is_revert (r : rkind) : bool :=        (* matches!(r, Receipt::Revert{..} | Receipt::Panic{..}) *)
+  match r with RcRevert | RcPanic => true | _ => false end.
+Definition message_id (r : rkind) : option N :=   (* r.message_id() *)
+  match r with RcMessageOut id => Some id | _ => None end.
+Fixpoint filter_map {A B} (f : A -> option B) (l : list A) : list B :=
+  match l with
+  | [] => []
+  | x :: r => match f x with Some y => y :: filter_map f r | None => filter_map f r end
+  end.
+
+(* the loop of the code:  for receipts in &receipts { let reverted = receipts.iter().any(..);
+                           if !reverted { msg_ids.extend(receipts.iter().filter_map(message_id)) } } *)
+Fixpoint recompute_loop (msg_ids : list N) (rss : list (list rkind)) : list N :=
+  match rss with
+  | [] => msg_ids
+  | rs :: r =>
+      let reverted := existsb is_revert rs in
+      recompute_loop (if reverted then msg_ids else msg_ids ++ filter_map message_id rs) r
+  end.
+Definition recomputed_ids (rss : list (list rkind)) : list N := recompute_loop [] rss.
+
+(* what the block producer puts into the header: per transaction, the ids of its MessageOut
+   receipts unless that very transaction reverted or panicked *)
+Definition producer_ids (rss : list (list rkind)) : list N :=
+  flat_map (fun rs => if existsb is_revert rs then [] else filter_map message_id rs) rss.
+
+Definition T_rkind (t : T) : option rkind :=
+  match t with
+  | L [I 0%Z] => Some RcReturn | L [I 1%Z] => Some RcRevert | L [I 2%Z] => Some RcPanic
+  | L [I 3%Z; id] => option_map RcMessageOut (getN id)
+  | L [I 4%Z] => Some RcScriptResult
+  | _ => None
+  end.
+Definition T_rss (t : T) : option (list (list rkind)) :=
+  match getL t with
+  | Some l => mapM (fun x => match getL x with Some rs => mapM T_rkind rs | None => None end) l
+  | None => None
+  end.
+
 (* ---- T codecs ---- *)
 Definition fval_T (v : fval) : T := match v with VNum n => tN n | VBytes b => tListN b end.
 Definition T_fval (t : T) : option fval :=
@@ -297,7 +345,8 @@ Definition T_store_obs (t : T) : option (bool * option N) :=
    (0 (heights))                       store sequence on an empty database
    (1 policies inputs outputs)         to_proto of a generated transaction; observed =
                                        (proto seen through the visitor, round-trip flag)
-   (2 policies inputs outputs (overrides))   from_proto of the overridden proto message *)
+   (2 policies inputs outputs (overrides))   from_proto of the overridden proto message
+   (3 height ((receipts of tx 0) (receipts of tx 1) ..))   whole-block round trip *)
 Definition main43 (input observed : T) : T :=
   match input with
   | L [I 0%Z; hs] =>
@@ -341,6 +390,17 @@ Definition main43 (input observed : T) : T :=
           let model := res_T (tx_from_proto p) in
           L [model; tB (T_eqb model observed)]
       | _, _ => tErr 4
+      end
+  | L [I 3%Z; height; rss] =>
+      (* whole block through the real convert_block / fuel_block_from_protobuf: observed =
+         (ok, block equal, receipts equal, original message_receipt_count, round-tripped
+          message_receipt_count, message_outbox_root equal, block id equal) *)
+      match getN height, T_rss rss with
+      | Some _, Some rss =>
+          let c := tN (N.of_nat (length (recomputed_ids rss))) in
+          let model := L [tB true; tB true; tB true; c; c; tB true; tB true] in
+          L [model; tB (T_eqb model observed)]
+      | _, _ => tErr 5
       end
   | _ => tErr 1
   end.
